@@ -30,7 +30,8 @@ def _join_exprs(exprs):
         def get_count(name):
             return sum((1 if name == axis.name else 0) for axes2 in axes for axis in axes2)
 
-        first_axisnames = list({axes2[0].name for axes2 in axes if len(axes2) > 0})
+        # In order of first appearance (not a set): ties between equally frequent axes must not be broken by string hashing
+        first_axisnames = list(dict.fromkeys(axes2[0].name for axes2 in axes if len(axes2) > 0))
         counts = [get_count(name) for name in first_axisnames]
         idx = np.argmax(counts)
         axisname = first_axisnames[idx]
